@@ -8,9 +8,9 @@ SPEC = {
     "bins": [
         # black-box: transcripts (pk, sk, signature bytes) and Verify verdicts against ref/mldsa, AVX2 on and off;
         # TestC04Concurrent: the same outputs under 8 goroutines per scheme
-        {"name": "c04", "pkg": "./zz_verif/c04", "run": "^TestC04(Transcript|Verdict|Concurrent|Randomness)$", "configs": _CFG2,
+        {"name": "c04", "pkg": "./zz_verif/c04", "run": "^TestC04(Transcript|Verdict|Concurrent|Randomness|History)$", "configs": _CFG2,
          "shards": {"quick": 2, "thorough": 16}},
-        {"name": "c04-purego", "pkg": "./zz_verif/c04", "run": "^TestC04(Transcript|Verdict|Concurrent|Randomness)$", "configs": _PUREGO, "tiers": ["thorough"],
+        {"name": "c04-purego", "pkg": "./zz_verif/c04", "run": "^TestC04(Transcript|Verdict|Concurrent|Randomness|History)$", "configs": _PUREGO, "tiers": ["thorough"],
          "shards": {"thorough": 4}},
         # black-box: reference-driven search for rare signing paths (hint weight > omega, weight == omega, >= 15 rounds)
         # and for key seeds in the tail of ExpandS (extra SHAKE block), fed to whole keygen + signing
